@@ -208,6 +208,7 @@ MUST_FIRE += [
               rep1(S + "stabilizer_circuits.py", "    assert_connectivity_is_supported(stabilizer.num_qubits, connectivity)\n    return _get_preparation_circuit_modulo_phase(stabilizer, connectivity).inverse()", "    return _get_preparation_circuit_modulo_phase(stabilizer, connectivity).inverse()")), "gate's exception swallowed"),
     ("m70", ["C13"], ["A3"], rep1(S + "circuit_lookup.py", "result.circuits = [circuit.copy() for circuit in self.circuits]", "result.circuits = [copy.copy(circuit) for circuit in self.circuits]"), "shallow copies of the cached circuits"),
     ("m71", ["C09"], ["W9"], rep1(S + "mub_circuits.py", "return circuit_lookup.mub_circuit_lookup(num_qubits, connectivity).circuits", "return [c for c in circuit_lookup.mub_circuit_lookup(num_qubits, connectivity).circuits if len(c.data) > 0]"), "identity circuit filtered out of the list"),
+    ("m73", ["C13"], ["A3", "A5"], multi(rep1(S + "circuit_lookup.py", "def parse_circuit(num_qubits: int, circuit_string: str) -> QuantumCircuit:", "@functools.lru_cache(maxsize=None)\ndef parse_circuit(num_qubits: int, circuit_string: str) -> QuantumCircuit:"), rep1(S + "circuit_lookup.py", "import copy\n", "import copy\nimport functools\n")), "loader memoised with lru_cache, result handed out uncopied"),
     ("m72", ["C13"], ["A3"], rep1(S + "circuit_lookup.py", "result.circuits = [circuit.copy() for circuit in self.circuits]", "result.circuits = list(self.circuits)"), "fresh list of the cached circuits"),
 ]
 
@@ -226,6 +227,7 @@ MUST_STAY_SILENT = [
     ("s12", ["C03", "C04"], multi(rep1(S + "stabilizer_circuits.py", "    lc_class_id = lc_classes.determine_lc_class(stabilizer).id()\n", "    lc_class_id = lc_classes.determine_lc_class(stabilizer).id()\n    logging.debug(\"%s %s\", stabilizer.phases, lc_class_id)\n"), rep1(S + "stabilizer_circuits.py", "from typing import Literal\n", "from typing import Literal\nimport logging\n")), False, "debug line reading the signs"),
     ("s13", ["C02", "C04", "C17", "C05"], (lambda tree: {D + "stabilizer3-linear.txt": tree.read(D + "stabilizer3-linear.txt").replace(" h", "  h", 3).rstrip("\n") + "\n\n"}), False, "doubled spaces and blank line at the end"),
     ("s14", ["C16", "C18"], rep1(S + "f2_algebra.py", "    return np.array(out, dtype=np.int8).reshape((len(out), cols))\n", "    if len(out) == 0:\n        return np.zeros((0, cols), dtype=np.int8)\n    return np.array(out)\n"), False, "explicit typed guard"),
+    ("s04", ["C13", "C02", "C09"], multi(rep1(S + "circuit_lookup.py", "        mubInfo = MUBInfo(num_qubits, lines)\n", "        mubInfo = _load_mub(num_qubits, filename)\n"), rep1(S + "circuit_lookup.py", "mub_file_cache = {}\n", "mub_file_cache = {}\n\n\n@functools.lru_cache(maxsize=None)\ndef _load_mub(num_qubits, filename):\n    return MUBInfo(num_qubits, pkg_resources.read_text(data, filename).split(\"\\n\"))\n"), rep1(S + "circuit_lookup.py", "import copy\n", "import copy\nimport functools\n")), False, "loader behind lru_cache, callers still copy"),
     ("s16", ["C09", "C13", "C02"], rep1(S + "mub_circuits.py", "return circuit_lookup.mub_circuit_lookup(num_qubits, connectivity).circuits", "return [c for c in circuit_lookup.mub_circuit_lookup(num_qubits, connectivity).circuits]"), False, "identity comprehension"),
     ("s15", ["C13"], rep1(S + "graph.py", "    def copy(self):\n        result = Graph(self.num_vertices)", "    def copy(self):\n        # fresh object\n        result = Graph(self.num_vertices)"), False, "comment"),
 ]
